@@ -43,8 +43,10 @@ fn set_nonblocking<T: AsRawFd>(fd: &T, nb: bool) -> io::Result<()> {
 /// this type can be used in coroutine context without blocking the thread
 #[derive(Debug)]
 pub struct CoIo<T: AsRawFd> {
-    inner: T,
+    // dropped before `inner`: the fd must leave the selector while it is still open,
+    // after the close its number can belong to another, just registered socket
     io: io_impl::IoData,
+    inner: T,
     #[cfg(feature = "io_timeout")]
     read_timeout: AtomicDuration,
     #[cfg(feature = "io_timeout")]
